@@ -159,3 +159,32 @@ package verifier
 //@ loop 1 invariant forall(r, 0, len(criticalExtendedAttrs), exists(i, 0, rangeindex+1, criticalExtendedAttrs[r] == signerInfo.SignedAttributes.ExtendedAttributes[i] && typeis(criticalExtendedAttrs[r].Key, string) && criticalExtendedAttrs[r].Key.(string) != HeaderVerificationPlugin && criticalExtendedAttrs[r].Key.(string) != HeaderVerificationPluginMinVersion))
 //@ loop 1 invariant forall(i, 0, rangeindex+1, typeis(signerInfo.SignedAttributes.ExtendedAttributes[i].Key, string) && signerInfo.SignedAttributes.ExtendedAttributes[i].Key.(string) != HeaderVerificationPlugin && signerInfo.SignedAttributes.ExtendedAttributes[i].Key.(string) != HeaderVerificationPluginMinVersion ==> exists(r, 0, len(criticalExtendedAttrs), criticalExtendedAttrs[r] == signerInfo.SignedAttributes.ExtendedAttributes[i]))
 //@ loop 1 invariant newsince(criticalExtendedAttrs) && (len(criticalExtendedAttrs) == 0 || fresh(criticalExtendedAttrs))
+
+// ---- C02: plugin verdicts ----
+
+//@ pure func resultsWFo(o *notation.VerificationOutcome) bool = forall(r, 0, len(o.VerificationResults), o.VerificationResults[r] != nil && o.VerificationResults[r].Action == o.VerificationLevel.Enforcement[o.VerificationResults[r].Type])
+//@ pure func noEnforcedFailure(o *notation.VerificationOutcome) bool = forall(r, 0, len(o.VerificationResults), !(o.VerificationResults[r].Action == trustpolicy.ActionEnforce && o.VerificationResults[r].Error != nil))
+//@ pure func hasAuthenticity(o *notation.VerificationOutcome) bool = exists(r, 0, len(o.VerificationResults), o.VerificationResults[r].Type == trustpolicy.TypeAuthenticity)
+//@ pure func nonPluginKey(a signature.Attribute) bool = typeis(a.Key, string) && a.Key.(string) != HeaderVerificationPlugin && a.Key.(string) != HeaderVerificationPluginMinVersion
+
+//@ func processPluginResponse
+//@ props C02
+//@ requires outcomeWF(outcome) && response != nil && resultsWFo(outcome) && hasAuthenticity(outcome) && noEnforcedFailure(outcome)
+//@ modifies outcome.VerificationResults, fieldsof(notation.ValidationResult, Error), elems(outcome.VerificationResults)
+//@ ensures[C02.unprocessed-attr] result == nil ==> forall(i, 0, len(outcome.EnvelopeContent.SignerInfo.SignedAttributes.ExtendedAttributes), nonPluginKey(outcome.EnvelopeContent.SignerInfo.SignedAttributes.ExtendedAttributes[i]) ==> exists(p, 0, len(response.ProcessedAttributes), response.ProcessedAttributes[p] == outcome.EnvelopeContent.SignerInfo.SignedAttributes.ExtendedAttributes[i].Key))
+//@ ensures[C02.missing-verdict] result == nil ==> forall(c, 0, len(capabilitiesToVerify), response.VerificationResults[capabilitiesToVerify[c]] != nil)
+//@ ensures[C02.results-shape] resultsWFo(outcome)
+//@ ensures[C02.enforced-failure-rejects] result == nil ==> noEnforcedFailure(outcome)
+//@ ensures[C02.plugin-revocation-reported] result == nil ==> forall(c, 0, len(capabilitiesToVerify), capabilitiesToVerify[c] == pluginframework.CapabilityRevocationCheckVerifier && !response.VerificationResults[capabilitiesToVerify[c]].Success ==> exists(r, 0, len(outcome.VerificationResults), outcome.VerificationResults[r].Type == trustpolicy.TypeRevocation && outcome.VerificationResults[r].Error != nil))
+//@ loop 1 invariant forall(a, 0, rangeindex+1, exists(p, 0, len(response.ProcessedAttributes), response.ProcessedAttributes[p] == ranged()[a].Key))
+//@ loop 2 invariant outcomeWF(outcome)
+//@ loop 2 invariant resultsWFo(outcome)
+//@ loop 2 invariant noEnforcedFailure(outcome)
+//@ loop 2 invariant hasAuthenticity(outcome)
+//@ loop 2 invariant newsince(outcome.VerificationResults) || sameobj(outcome.VerificationResults, old(outcome.VerificationResults))
+//@ loop 2 invariant forall(c, 0, rangeindex+1, response.VerificationResults[capabilitiesToVerify[c]] != nil)
+//@ loop 2 invariant forall(c, 0, rangeindex+1, capabilitiesToVerify[c] == pluginframework.CapabilityRevocationCheckVerifier && !response.VerificationResults[capabilitiesToVerify[c]].Success ==> exists(r, 0, len(outcome.VerificationResults), outcome.VerificationResults[r].Type == trustpolicy.TypeRevocation && outcome.VerificationResults[r].Error != nil))
+//@ loop 2 invariant forall(i, 0, len(outcome.EnvelopeContent.SignerInfo.SignedAttributes.ExtendedAttributes), nonPluginKey(outcome.EnvelopeContent.SignerInfo.SignedAttributes.ExtendedAttributes[i]) ==> exists(p, 0, len(response.ProcessedAttributes), response.ProcessedAttributes[p] == outcome.EnvelopeContent.SignerInfo.SignedAttributes.ExtendedAttributes[i].Key))
+//@ loop 2 modifies outcome.VerificationResults, fieldsof(notation.ValidationResult, Error), elems(outcome.VerificationResults)
+//@ loop 3 invariant authenticityResult == nil && forall(r, 0, rangeindex+1, outcome.VerificationResults[r].Type != trustpolicy.TypeAuthenticity)
+//@ loop 3 exit-assert false
